@@ -150,9 +150,19 @@ def call(op, circ, seed):
 def run_history(job):
     prog, hist = job['prog'], job['hist']
     text = render.render_prog(prog)
+    if job.get('route') == 'builder':
+        # programs the text grammar cannot express (same-type blocks nested directly): built through the S-expression API
+        from jaqalpaq.core.circuitbuilder import build
+        from . import gates
+        sx = render.sexpr_prog(prog)
+        text = 'builder: ' + repr(sx)
+        inject = gates.select([n['v'] for n in prog['natives']]) if prog['natives'] else None
+        mk = lambda: build(render.sexpr_prog(prog), inject_pulses=inject)
+    else:
+        mk = lambda: passes.parse_prog(prog, text)
     try:
-        shared = passes.parse_prog(prog, text)
-        ref = passes.parse_prog(prog, text)
+        shared = mk()
+        ref = mk()
     except Exception:
         return None
     start = passes.compress(project.circuit(shared))
@@ -161,7 +171,7 @@ def run_history(job):
     calls = []
     for n, op in enumerate(hist):
         res_shared = call(op, shared, job['seed'] + n)
-        fresh = passes.parse_prog(prog, text)
+        fresh = mk()
         res_fresh = call(op, fresh, job['seed'] + n)
         snap = passes.compress(project.circuit(shared))
         calls.append({'op': op, 'snap_eq': bool(shared == ref), 'snap_same_repr': repr(shared) == repr0, 'snap': snap,
@@ -202,6 +212,13 @@ def main(tier):
     for n, p in enumerate(deep):
         for m, h in enumerate([('T', 'T'), ('T', 'G', 'T'), ('T', 'U')]):
             jobs.append({'id': 'nestings-deep/%d/h%d' % (n, m), 'prog': p, 'hist': h, 'seed': n * 10 + m})
+    # macro bodies with same-type blocks nested directly and parameter-free parts (builder route): what an expansion shares
+    # with the definition must not be edited in place
+    free = passes.enumerate_programs(rep, 'free-nesting-builder', passes.ast_cfg('H_X', 'M_XF', 'T_XF', 'O_XF', 2, 4), wd,
+                                     budget=150 if tier == 'quick' else 2000)
+    for n, p in enumerate(x for x in free if x['natives']):
+        for m, h in enumerate([('A',), ('A', 'A'), ('A', 'G'), ('A', 'T'), ('A', 'U'), ('L', 'A')]):
+            jobs.append({'id': 'free-nesting-builder/%d/h%d' % (n, m), 'prog': p, 'hist': h, 'seed': n * 10 + m, 'route': 'builder'})
     rep.phase('tlc_enumeration')
     recs = [r for r in core.pool_map(run_history, jobs, chunksize=50) if r]
     rep.phase('replay')
